@@ -36,7 +36,12 @@ H_SMOOTH = 0.0625         # every particle's h
 RADIUS_SCALE = 2.0        # neighbour radius 0.125, dyadic
 GRID = 64                 # positions are multiples of 1/64
 DEFAULT_ATTRS = dict(real=True, start=['n', 0], stop=None, iter=False, min=0,
-                     max=1, cond=False, pre=False, post=False, nnps=False)
+                     max=1, cond=False, pre=False, post=False, nnps=False,
+                     name=None)
+# `name` = the user's Group(name=...) (None: not given, PySPH numbers the group).
+# It is documented as a label for the profiling output; nothing requires it to
+# be unique, and several groups / sub-groups may carry the same one.
+LABELS = ['density', 'correct', 'sweep', 'stage', 'outer']
 
 # --------------------------------------------------------------------------
 # tracer classes (source text; written to a module file because compyle reads
@@ -417,9 +422,84 @@ def gen_chain_program(rng):
     return prog
 
 
-def gen_program(rng, kind=None):
+def name_classes(prog):
+    """{label: [gid, ...]} of the explicit names carried by two or more groups"""
+    by = {}
+    for gid, a in all_attrs(prog):
+        if a.get('name'):
+            by.setdefault(a['name'], []).append(gid)
+    return {k: v for k, v in by.items() if len(v) >= 2}
+
+
+def names_class(prog):
+    """how the program labels its groups (for the input distribution)"""
+    if not any(a.get('name') for _, a in all_attrs(prog)):
+        return 'none'
+    nc = name_classes(prog)
+    if not nc:
+        return 'unique'
+    kinds = set()
+    for gids in nc.values():
+        tops = [g for g in gids if '.' not in g]
+        subs = [g for g in gids if '.' in g]
+        if len(tops) >= 2:
+            kinds.add('top+top')
+        if tops and subs:
+            kinds.add('top+sub')
+        if len(subs) >= 2:
+            same = len({g.split('.')[0] for g in subs}) < len(subs)
+            kinds.add('sub+sub-same-parent' if same else 'sub+sub-other-parent')
+    return 'shared:' + ','.join(sorted(kinds))
+
+
+def assign_names(rng, prog, mode=None, touch_cond=True):
+    """give groups explicit `name=` labels.  mode 'shared': two or more groups
+    -- top-level and/or sub-groups, of the same or of different parents -- get
+    the SAME label, and every namesake gets callables of its own (condition,
+    pre, post; the tracer callables log the position of the group they were
+    given to), so that a callback dispatched to a namesake is observable."""
+    if prog['flat']:
+        return prog
+    attrs = all_attrs(prog)
+    mode = mode or rng.choice(['none', 'none', 'unique', 'shared', 'shared', 'shared'])
+    if mode == 'none':
+        return prog
+    if mode == 'unique' or len(attrs) < 2:
+        for k, (gid, a) in enumerate(attrs):
+            if rng.random() < 0.6:
+                a['name'] = 'g%s_%s' % (gid.replace('.', '_'), rng.choice(LABELS))
+        return prog
+    labels = rng.sample(LABELS, 2)
+    pool = [a for _, a in attrs]
+    rng.shuffle(pool)
+    n1 = rng.choice([2, 2, 3, len(pool)])
+    first, rest = pool[:n1], pool[n1:]
+    classes = [(labels[0], first)]
+    if len(rest) >= 2 and rng.random() < 0.5:
+        classes.append((labels[1], rest[:rng.choice([2, len(rest)])]))
+    elif rest and rng.random() < 0.4:
+        rest[0]['name'] = 'only_' + labels[1]
+    for label, members in classes:
+        for a in members:
+            a['name'] = label
+            if touch_cond and rng.random() < 0.75:
+                a['cond'] = True
+            a['pre'] = a['pre'] or rng.random() < 0.6
+            a['post'] = a['post'] or rng.random() < 0.6
+            if not (a['cond'] or a['pre'] or a['post']):
+                a[rng.choice(['pre', 'post'] + (['cond'] if touch_cond else []))] = True
+    return prog
+
+
+def gen_program(rng, kind=None, names=None):
     kind = kind or rng.choice(['flat', 'groups', 'groups', 'groups', 'mixed', 'mixed',
                                'chain'])
+    prog = gen_program_shape(rng, kind)
+    # the chain shape relies on its groups being unconditional
+    return assign_names(rng, prog, names, touch_cond=(kind != 'chain'))
+
+
+def gen_program_shape(rng, kind):
     if kind == 'chain':
         return gen_chain_program(rng)
     narr = rng.choice([1, 2, 2, 3])
@@ -503,6 +583,14 @@ def gen_variant(rng, prog, first=False):
     if classify_wf(prog) == 'min>max-or-max=0':
         for c in conv.values():
             c['rest'] = True
+    # groups that share a name get conditions with DIFFERENT outcomes (one always
+    # False, one always True), most of the time
+    for label, gids in sorted(name_classes(prog).items()):
+        cg = [g for g in gids if g in cond]
+        if len(cg) >= 2 and rng.random() < 0.75:
+            lo, hi = rng.sample(cg, 2)
+            cond[lo] = {'v': [], 'rest': False}
+            cond[hi] = {'v': [], 'rest': True}
     for gid, sc in prog.get('force', {}).get('cond', {}).items():
         cond[gid] = sc
     for eid, sc in prog.get('force', {}).get('conv', {}).items():
@@ -632,6 +720,8 @@ def _worker(idx, prog, variants, work):
             kw['pre'] = mk_prepost(gid, 20)
         if a['post']:
             kw['post'] = mk_prepost(gid, 21)
+        if a.get('name'):
+            kw['name'] = a['name']
         return Group(equations=members, **kw)
 
     if prog['flat']:
@@ -740,11 +830,20 @@ def _worker(idx, prog, variants, work):
         c03h.SPY_ON = True
         with open(os.path.join(work, 'progress_%d_%d' % (os.getppid(), idx)), 'w') as fh:
             fh.write(str(vi))
-        a_eval.compute(var['t'], var['dt'])
+        raised = None
+        try:
+            a_eval.compute(var['t'], var['dt'])
+        except Exception as e:    # noqa
+            # the evaluation itself raised (e.g. the generated code called a
+            # callable of a group that has none): the calls made so far are
+            # compared as usual, the exception is reported with them
+            import traceback
+            raised = '%s: %s | %s' % (type(e).__name__, e,
+                                      ' <- '.join(traceback.format_exc().strip().split('\n')[-4:-1]))
         c03h.SPY_ON = False
         raw = mod.c03_get()
         results.append({'raw': raw, 'snaps': c03h.SNAPS,
-                        'argfail': state['argfail']})
+                        'argfail': state['argfail'], 'raised': raised})
     return {'idx': idx, 'results': results, 't_compile': t_compile,
             't_total': time.time() - t0}
 
@@ -849,10 +948,11 @@ def idx_str(v):
 
 def attrs_str(a):
     return ('real=%d start=%s stop=%s iter=%d min=%d max=%d cond=%d pre=%d '
-            'post=%d nnps=%d' % (a['real'], idx_str(a['start']),
-                                 '-' if a['stop'] is None else idx_str(a['stop']),
-                                 a['iter'], a['min'], a['max'], a['cond'],
-                                 a['pre'], a['post'], a['nnps']))
+            'post=%d nnps=%d name=%s' % (a['real'], idx_str(a['start']),
+                                         '-' if a['stop'] is None else idx_str(a['stop']),
+                                         a['iter'], a['min'], a['max'], a['cond'],
+                                         a['pre'], a['post'], a['nnps'],
+                                         a.get('name') or '-'))
 
 
 def bl(v):
@@ -1108,6 +1208,12 @@ def check_variant(R, prog, var, res, tag, model_out):
                          'n': len(exp_c), 'error': err},
                         {'at': k, 'observed': obs_c[max(0, k - 3):k + 4],
                          'n': len(obs_c)})
+    if res.get('raised'):
+        R.count('compute-raises')
+        R.prop_fail(fail_key(prog, 'compute-raises'), case,
+                    'compute(t, dt) makes the documented calls and returns',
+                    {'exception': res['raised'], 'calls-made-before': obs_c[-6:],
+                     'n': len(obs_c)})
     # ---- bookkeeping
     kinds = {kind_of(x) for x in obs}
     for kd in sorted(kinds):
@@ -1116,6 +1222,15 @@ def check_variant(R, prog, var, res, tag, model_out):
                              'sub-groups' if any(t['kind'] == 'parent' for t in prog['tops'])
                              else 'groups'))
     R.count('domain:' + prog['domain'])
+    R.count('group-names:' + names_class(prog))
+    for label, gids in name_classes(prog).items():
+        outs = {g: ('%s' % var['cond'][g]['rest']) for g in gids
+                if g in var['cond'] and not var['cond'][g]['v']}
+        if len(set(outs.values())) == 2:
+            R.count('namesakes-with-conditions-of-different-outcome')
+        if sum(1 for g, a in all_attrs(prog) if g in gids and
+               (a['cond'] or a['pre'] or a['post'])) >= 2:
+            R.count('namesakes-with-own-callables')
     R.count('narr:%d' % len(prog['arrays']))
     R.count('epochs:%d' % (len(res['snaps']) - 1))
     sizes0 = res['snaps'][0]['sizes']
@@ -1354,6 +1469,34 @@ def corpus():
         {'kind': 'parent', 'attrs': A(iter=True, min=0, max=3, post=True), 'subs': [
             {'attrs': A(), 'eqs': [E(3, 1, [0], 'la,lp')]},
             {'attrs': A(real=False), 'eqs': [E(4, 0, [1], 'lp,pl'), E(5, 1, [1], 'la')]}]}]})
+    # 10. (minimised from a seeded defect) groups that share a user-given name:
+    # two top-level groups called 'density' (first condition False, second True),
+    # two sub-groups called 'correct' in one parent (first True, second False),
+    # and the labels re-used across levels ('correct' on a top-level group,
+    # 'density' on a sub-group of another parent): each group keeps its OWN
+    # condition / pre / post
+    progs.append({'arrays': ['a0'], 'domain': 'none', 'flat': False,
+                  'force': {'cond': {'0': {'v': [], 'rest': False},
+                                     '1': {'v': [], 'rest': True},
+                                     '2.0': {'v': [], 'rest': True},
+                                     '2.1': {'v': [], 'rest': False},
+                                     '3.0': {'v': [], 'rest': True},
+                                     '3.1': {'v': [], 'rest': False}},
+                            'arrays': [{'x': [0 / GRID, 6 / GRID, 12 / GRID],
+                                        'gx': [], 'gt': [], 'c': [0, 3]}]},
+                  'tops': [
+        {'kind': 'leaf', 'attrs': A(name='density', cond=True, pre=True, post=True),
+         'eqs': [E(1, 0, [], 'in')]},
+        {'kind': 'leaf', 'attrs': A(name='density', cond=True, pre=True, post=True),
+         'eqs': [E(2, 0, [0], 'in,lp')]},
+        {'kind': 'parent', 'attrs': A(name='outer', pre=True, post=True), 'subs': [
+            {'attrs': A(name='correct', cond=True, pre=True, post=True),
+             'eqs': [E(3, 0, [], 'in,pl')]},
+            {'attrs': A(name='correct', cond=True, pre=True, post=True),
+             'eqs': [E(4, 0, [], 'in,rd')]}]},
+        {'kind': 'parent', 'attrs': A(name='correct', post=True), 'subs': [
+            {'attrs': A(name='density', cond=True, post=True), 'eqs': [E(5, 0, [0], 'lp')]},
+            {'attrs': A(name='outer', cond=True, pre=True), 'eqs': [E(6, 0, [], 'in')]}]}]})
     return progs
 
 
@@ -1386,7 +1529,9 @@ def main():
         'equations per group with random hook subsets, real, numeric and named start/stop '
         '(explicit stops also beyond the number of real particles), iterate/min/max, '
         'condition, pre/post, update_nnps followed by dependent groups, iterated groups '
-        'entered from a group that ends on the pair their body starts with; variant = particle '
+        'entered from a group that ends on the pair their body starts with, explicit group '
+        'names (none / unique / the SAME name on several top-level groups and sub-groups, each '
+        'with its own condition/pre/post, conditions of different outcome); variant = particle '
         'positions/counts, named values, scripted condition/convergence outcomes; one '
         'compute(t, dt) per case through the real compiled pipeline; distinct = distinct '
         'case JSON; non-trivial = at least 4 kinds of events and at least 10 calls observed')
@@ -1418,7 +1563,13 @@ def main():
     R.count('corpus-programs', len(items))
     for k in range(nrand):
         # every run has at least one program of the iterated-back-edge shape
-        p = gen_program(rng, 'chain' if k % 8 == 0 else None)
+        # and at least one whose groups / sub-groups share explicit names
+        if k % 8 == 0:
+            p = gen_program(rng, 'chain')
+        elif k % 8 == 1:
+            p = gen_program(rng, 'mixed', names='shared')
+        else:
+            p = gen_program(rng)
         items.append((p, [gen_variant(rng, p) for _ in range(nvar)]))
     R.count('random-programs', nrand)
     chunk = 40
@@ -1430,7 +1581,9 @@ def main():
         rng2 = random.Random(a.seed + 4242)
         extra = []
         for k in range(16):
-            p = gen_program(rng2, 'chain' if k % 4 == 0 else None)
+            p = gen_program(rng2, 'chain') if k % 4 == 0 else \
+                gen_program(rng2, 'mixed', names='shared') if k % 4 == 1 else \
+                gen_program(rng2)
             extra.append((p, [gen_variant(rng2, p) for _ in range(nvar)]))
         run_batch(R, extra, a.work, nproc, tag0=1000)
         R.d['search'] = {'extra_programs': len(extra),
